@@ -1,6 +1,6 @@
 (* C19 -- Diagnostics are complete and never spurious (partial: see MANIFEST level text). *)
 From Rimu Require Import Base Unicode Regex RegexAnalysis RegexParse Str Types Tables Guards State Inline Block
-  Frame FrameBlock FrameInst OptionsLemmas MiscLemmas MoreLemmas Plain TableFacts Rel RelBlock RelApi.
+  Frame FrameBlock FrameInst OptionsLemmas MiscLemmas MoreLemmas Plain TableFacts Rel RelBlock RelApi PlainDoc Lines.
 
 (* every inline computation run by the block layer changes nothing but the diagnostic log *)
 Theorem C19_lift_only_logs : forall A (f : ienv -> I A) s a s', lift f s = Ok (a, s') -> exists l, s' = set_log s l.
@@ -61,6 +61,13 @@ Theorem C19_callback_never_alters_output : forall n src o1 o2 s,
   end.
 Proof. exact callback_irrelevant. Qed.
 Print Assumptions C19_callback_never_alters_output.
+
+(* a well-formed plain document produces no diagnostic: the session, log included, is unchanged *)
+Theorem C19_plain_silent : forall n l s,
+  quiet_default s -> safe_line l ->
+  doc_render (S (S (S (S (S n))))) l s = Ok ($"<p>" ++ escape l ++ $"</p>", s).
+Proof. exact plain_line_document. Qed.
+Print Assumptions C19_plain_silent.
 
 Example C19_ex :
   match api_render 40 ($".." ++ [10] ++ $"{nosuch}") (mkOpts PyNone PyNone PyNone true) S0 with
